@@ -81,7 +81,8 @@ def check_buffer(n):
     return None, ev
 
 
-ALPHABETS = {"int": lambda i: i, "str": lambda i: f"g{i}", "rev": lambda i: 100 - i}
+# "list": distinct but unhashable elements (the functions only need ==)
+ALPHABETS = {"int": lambda i: i, "str": lambda i: f"g{i}", "rev": lambda i: 100 - i, "list": lambda i: [i, "x"]}
 
 
 def run_shard(shard, tier, seed):
